@@ -1,7 +1,7 @@
 (* Lemmas about Model/GridTracks.v (C09).  Part 1 (any number structure): shape of the vector built by
    initialize_grid_tracks and the number of tracks it creates.  Part 2 (exact instance XQ): find_size_of_fr /
    expand_flexible_tracks, distribute_space_up_to_limits / maximise_tracks. *)
-From Coq Require Import ZArith NArith QArith Qminmax Bool List Lia Lra Arith.
+From Coq Require Import ZArith NArith QArith Qminmax Bool List Lia Lqa Arith.
 From TV Require Import Num.Num Num.QNum Gen.GridTracksGen Model.GridTracks.
 Import ListNotations.
 
@@ -336,3 +336,231 @@ Section Structure.
       rewrite Hk, (gutter_ok_kind _ _ _ Hg). reflexivity.
   Qed.
 End Structure.
+
+(* ==================================================================================================================
+   Part 2: the exact instance XQ *)
+Local Open Scope Q_scope.
+
+Ltac xq := cbn [fmax fmin add sub mul div neg eqb ltb leb zero one infinity of_Z of_Q is_nan QNum
+                 x_add x_sub x_neg x_mul x_max x_min x_ltb x_leb x_eqb x_is_nan negb] in *.
+
+Lemma fin_inv (x : XQ) : finite x -> exists q, x = Fin q.
+Proof. destruct x; simpl; try contradiction; eauto. Qed.
+
+Lemma Qle_bool_false a b : Qle_bool a b = false <-> b < a.
+Proof.
+  split; intro Hx.
+  - apply Qnot_le_lt. intro Hc. apply Qle_bool_iff in Hc. congruence.
+  - destruct (Qle_bool a b) eqn:E; auto. apply Qle_bool_iff in E. exfalso; lra.
+Qed.
+
+Lemma x_ltb_fin a b : x_ltb (Fin a) (Fin b) = true <-> a < b.
+Proof.
+  simpl. destruct (Qle_bool b a) eqn:E; simpl.
+  - apply Qle_bool_iff in E. split; [discriminate|lra].
+  - apply Qle_bool_false in E. split; auto.
+Qed.
+Lemma x_ltb_fin_false a b : x_ltb (Fin a) (Fin b) = false <-> b <= a.
+Proof.
+  simpl. destruct (Qle_bool b a) eqn:E; simpl.
+  - apply Qle_bool_iff in E. split; auto.
+  - apply Qle_bool_false in E. split; [discriminate|lra].
+Qed.
+Lemma x_leb_fin a b : x_leb (Fin a) (Fin b) = true <-> a <= b.
+Proof. simpl. apply Qle_bool_iff. Qed.
+Lemma x_leb_fin_false a b : x_leb (Fin a) (Fin b) = false <-> b < a.
+Proof. simpl. apply Qle_bool_false. Qed.
+Lemma x_eqb_fin a b : x_eqb (Fin a) (Fin b) = true <-> a == b.
+Proof. simpl. apply Qeq_bool_iff. Qed.
+
+Lemma x_max_fin a b : exists c, x_max (Fin a) (Fin b) = Fin c /\ a <= c /\ b <= c /\ (c == a \/ c == b).
+Proof.
+  unfold x_max. cbn [x_is_nan]. destruct (x_ltb (Fin a) (Fin b)) eqn:E.
+  - apply x_ltb_fin in E. exists b. repeat split; lra.
+  - apply x_ltb_fin_false in E. exists a. repeat split; lra.
+Qed.
+Lemma x_min_fin a b : exists c, x_min (Fin a) (Fin b) = Fin c /\ c <= a /\ c <= b /\ (c == a \/ c == b).
+Proof.
+  unfold x_min. cbn [x_is_nan]. destruct (x_ltb (Fin b) (Fin a)) eqn:E.
+  - apply x_ltb_fin in E. exists b. repeat split; lra.
+  - apply x_ltb_fin_false in E. exists a. repeat split; lra.
+Qed.
+
+(* a <= b  ==>  not (b < a), for every extended value *)
+Lemma x_leb_ltb (a b : XQ) : x_leb a b = true -> x_ltb b a = false.
+Proof.
+  destruct a, b; simpl; auto; try discriminate.
+  intro Hx. rewrite Hx. reflexivity.
+Qed.
+Lemma x_leb_max (a b : XQ) : x_leb a b = true -> xeq (x_max a b) b.
+Proof.
+  destruct a as [a| | |], b as [b| | |]; simpl; try discriminate; auto; intro Hx.
+  - unfold x_max. cbn [x_is_nan]. destruct (x_ltb (Fin a) (Fin b)) eqn:E; simpl; [reflexivity|].
+    apply x_ltb_fin_false in E. apply Qle_bool_iff in Hx. lra.
+  - reflexivity.
+Qed.
+
+(* ---- sums of finite values *)
+Definition qb (t : track XQ) : Q := val (base_size t).
+Definition qf (t : track XQ) : Q := val (sfn_value (maxf t)).
+Definition track_fin (t : track XQ) : Prop := finite (base_size t) /\ finite (sfn_value (maxf t)).
+
+Fixpoint qsum (l : list Q) : Q := match l with [] => 0 | x :: r => x + qsum r end.
+
+Lemma fold_add_fin (l : list XQ) (a : Q) :
+  Forall finite l -> exists s, fold_left x_add l (Fin a) = Fin s /\ s == a + qsum (map val l).
+Proof.
+  revert a. induction l as [|x l IH]; intros a Hf; simpl.
+  - exists a. split; [reflexivity|lra].
+  - inversion Hf as [|? ? Hx Hl]; subst. destruct (fin_inv x Hx) as [q Eq]. subst x. simpl.
+    destruct (IH (a + q) Hl) as [s [E1 E2]]. exists s. split; [exact E1|]. simpl in *. lra.
+Qed.
+
+Lemma fsum_fin (l : list XQ) : Forall finite l -> exists s, @fsum XQ _ l = Fin s /\ s == qsum (map val l).
+Proof.
+  intro Hf. unfold fsum, neg_zero. xq.
+  destruct (fold_add_fin l (- 0) Hf) as [s [E1 E2]]. exists s. split; [exact E1|]. lra.
+Qed.
+
+Lemma fsum_bases_fin (tracks : list (track XQ)) :
+  Forall (fun t => finite (base_size t)) tracks ->
+  exists s, @fsum XQ _ (map base_size tracks) = Fin s /\ s == qsum (map qb tracks).
+Proof.
+  intro Hf. destruct (fsum_fin (map base_size tracks)) as [s [E1 E2]].
+  - apply Forall_map. exact Hf.
+  - exists s. split; [exact E1|]. rewrite map_map in E2. exact E2.
+Qed.
+
+(* ---- find_size_of_fr / expand_flexible_tracks *)
+Fixpoint used_q (h : XQ) (tracks : list (track XQ)) : Q :=
+  match tracks with [] => 0 | t :: r => (if flexible_at h t then 0 else qb t) + used_q h r end.
+Fixpoint flex_q (h : XQ) (tracks : list (track XQ)) : Q :=
+  match tracks with [] => 0 | t :: r => (if flexible_at h t then qf t else 0) + flex_q h r end.
+
+Lemma fr_sums_fin_gen (tracks : list (track XQ)) (h : XQ) (u0 s0 : Q) :
+  Forall track_fin tracks ->
+  exists u s,
+    fold_left (fun '(u, s) t => if flexible_at h t then (u, add s (sfn_value (maxf t))) else (add u (base_size t), s))
+              tracks (Fin u0, Fin s0) = (Fin u, Fin s)
+    /\ u == u0 + used_q h tracks /\ s == s0 + flex_q h tracks.
+Proof.
+  revert u0 s0. induction tracks as [|t r IH]; intros u0 s0 Hf; simpl.
+  - exists u0, s0. repeat split; lra.
+  - inversion Hf as [|? ? [Hb Hv] Hr]; subst.
+    destruct (fin_inv _ Hb) as [b Eb]. destruct (fin_inv _ Hv) as [f Ef].
+    unfold qb, qf. rewrite Eb, Ef. destruct (flexible_at h t); xq.
+    + destruct (IH u0 (s0 + f) Hr) as [u [s [E1 [E2 E3]]]]. exists u, s. repeat split; auto; simpl; lra.
+    + destruct (IH (u0 + b) s0 Hr) as [u [s [E1 [E2 E3]]]]. exists u, s. repeat split; auto; simpl; lra.
+Qed.
+
+Lemma fr_sums_fin (tracks : list (track XQ)) (h : XQ) :
+  Forall track_fin tracks ->
+  exists u s, fr_sums tracks h = (Fin u, Fin s) /\ u == used_q h tracks /\ s == flex_q h tracks.
+Proof.
+  intro Hf. destruct (fr_sums_fin_gen tracks h 0 0 Hf) as [u [s [E1 [E2 E3]]]].
+  exists u, s. repeat split; [exact E1|lra|lra].
+Qed.
+
+Lemma flexible_is_fr (h : XQ) (t : track XQ) : flexible_at h t = true -> is_fr (maxf t) = true.
+Proof. unfold flexible_at. intro Hx. apply andb_true_iff in Hx. tauto. Qed.
+
+(* the base size after expansion with fraction hq *)
+Lemma expand_one_fin (hq : Q) (t : track XQ) : track_fin t ->
+  exists nb, base_size (expand_one (Fin hq) t) = Fin nb /\ qb t <= nb /\ (is_fr (maxf t) = true -> qf t * hq <= nb).
+Proof.
+  intros [Hb Hv]. destruct (fin_inv _ Hb) as [b Eb]. destruct (fin_inv _ Hv) as [f Ef].
+  unfold expand_one, qb, qf. destruct (is_fr (maxf t)) eqn:Efr.
+  - simpl. rewrite Eb, Ef. xq. destruct (x_max_fin b (f * hq)) as [c [E1 [E2 [E3 _]]]].
+    cbn [x_max x_is_nan x_ltb negb] in E1. exists c. rewrite E1. simpl. repeat split; auto.
+  - exists b. rewrite Eb. simpl. repeat split; try lra; try discriminate.
+Qed.
+
+Lemma expand_sum_ge (hq : Q) (hp : XQ) (tracks : list (track XQ)) :
+  Forall track_fin tracks ->
+  exists s, @fsum XQ _ (map base_size (apply_flex_fraction (Fin hq) tracks)) = Fin s
+            /\ used_q hp tracks + hq * flex_q hp tracks <= s
+            /\ qsum (map qb tracks) <= s.
+Proof.
+  intro Hf.
+  assert (Hg : exists l : list Q,
+             map base_size (apply_flex_fraction (Fin hq) tracks) = map Fin l
+             /\ used_q hp tracks + hq * flex_q hp tracks <= qsum l /\ qsum (map qb tracks) <= qsum l).
+  { induction tracks as [|t r IH].
+    - exists []. simpl. repeat split; lra.
+    - inversion Hf as [|? ? Ht Hr]; subst. destruct (IH Hr) as [l [E1 [E2 E3]]].
+      destruct (expand_one_fin hq t Ht) as [nb [N1 [N2 N3]]].
+      exists (nb :: l). unfold apply_flex_fraction in *. cbn [map used_q flex_q qsum]. rewrite E1, N1.
+      repeat split; auto.
+      + destruct (flexible_at hp t) eqn:Efl.
+        * apply flexible_is_fr in Efl. specialize (N3 Efl). lra.
+        * lra.
+      + lra. }
+  destruct Hg as [l [E1 [E2 E3]]]. rewrite E1.
+  destruct (fsum_fin (map Fin l)) as [s [F1 F2]].
+  - apply Forall_map. apply Forall_forall. intros; exact I.
+  - exists s. rewrite map_map in F2. simpl in F2. rewrite map_id in F2. split; [exact F1|]. split; lra.
+Qed.
+
+Lemma fr_loop_exit (fuel : nat) (tracks : list (track XQ)) (space h0 hp h : XQ) :
+  fr_loop fuel tracks space h0 = (hp, h, true) -> h = fr_next tracks space hp /\ fr_valid tracks hp h = true.
+Proof.
+  revert h0. induction fuel as [|f IH]; intro h0; simpl.
+  - discriminate.
+  - destruct (fr_valid tracks h0 (fr_next tracks space h0)) eqn:Ev.
+    + intro E. inversion E; subst. auto.
+    + apply IH.
+Qed.
+
+Definition track_ok (t : track XQ) : Prop := track_fin t /\ 0 <= qb t.
+
+Theorem fr_fill (tracks : list (track XQ)) (space : XQ) (amin amax : option XQ) (items : list (nat * nat * XQ)) :
+  Forall track_ok tracks -> finite space ->
+  snd (fr_exit tracks space) = true ->
+  x_leb (Fin 1) (final_flex_factor_sum tracks space) = true ->
+  x_leb space (@fsum XQ _ (map base_size (expand_flexible_tracks amin amax (Definite space) items tracks))) = true.
+Proof.
+  intros Hok Hs Hexit Hsum.
+  assert (Hf : Forall track_fin tracks) by (eapply Forall_impl; [|exact Hok]; intros t [Ht _]; exact Ht).
+  assert (Hb : Forall (fun t => finite (base_size t)) tracks) by (eapply Forall_impl; [|exact Hf]; intros t [Ht _]; exact Ht).
+  destruct (fin_inv _ Hs) as [sq Es]. subst space.
+  destruct (fsum_bases_fin tracks Hb) as [used [Eu Equ]].
+  assert (Hnn : 0 <= qsum (map qb tracks)).
+  { clear - Hok. induction Hok as [|t r [_ Ht] _ IH]; simpl; lra. }
+  unfold expand_flexible_tracks, flex_fraction. rewrite Eu. xq.
+  destruct (Qle_bool (sq + - used) 0) eqn:Efree.
+  - (* no free space: the flex fraction is zero *)
+    apply Qle_bool_iff in Efree.
+    destruct (expand_sum_ge 0 (Fin 0) tracks Hf) as [s [E1 [_ E3]]]. rewrite E1. apply x_leb_fin. lra.
+  - apply Qle_bool_false in Efree. unfold find_size_of_fr. xq.
+    destruct (Qeq_bool sq 0) eqn:Ez.
+    + apply Qeq_bool_iff in Ez. lra.
+    + unfold final_flex_factor_sum in Hsum.
+      destruct (fr_exit tracks (Fin sq)) as [[hp h] ok] eqn:Ex. simpl in Hexit, Hsum. subst ok. simpl.
+      unfold fr_exit in Ex. destruct (fr_loop_exit _ _ _ _ _ _ Ex) as [Eh _].
+      unfold fr_next in Eh. destruct (fr_sums_fin tracks hp Hf) as [u [s [E1 [E2 E3]]]].
+      rewrite E1 in Eh, Hsum. simpl in Hsum. apply Qle_bool_iff in Hsum. xq.
+      assert (Emax : x_max (Fin s) (Fin 1) = Fin s).
+      { unfold x_max. cbn [x_is_nan]. destruct (x_ltb (Fin s) (Fin 1)) eqn:El; [|reflexivity].
+        apply x_ltb_fin in El. lra. }
+      cbn [x_max x_is_nan x_ltb negb] in Emax. rewrite Emax in Eh. simpl in Eh.
+      assert (Hsgn : q_sign s = Gt).
+      { unfold q_sign. apply Z.compare_gt_iff. destruct s as [sn sd]. unfold Qle in Hsum. simpl in *. lia. }
+      rewrite Hsgn in Eh. subst h.
+      destruct (expand_sum_ge ((sq + - u) / s) hp tracks Hf) as [t [T1 [T2 _]]]. rewrite T1. apply x_leb_fin.
+      assert (Hs0 : ~ s == 0) by lra.
+      assert ((sq + - u) / s * flex_q hp tracks == sq - u).
+      { rewrite <- E3. field. exact Hs0. }
+      lra.
+Qed.
+
+Theorem fr_proportional (tracks : list (track XQ)) (space hp h : XQ) (t : track XQ) :
+  fr_exit tracks space = (hp, h, true) -> In t tracks -> flexible_at hp t = true ->
+  xeq (base_size (expand_one h t)) (x_mul (sfn_value (maxf t)) h).
+Proof.
+  intros Ex Hin Hfl. unfold fr_exit in Ex. destruct (fr_loop_exit _ _ _ _ _ _ Ex) as [_ Hv].
+  unfold fr_valid in Hv. rewrite forallb_forall in Hv. specialize (Hv t Hin).
+  unfold flexible_at in Hfl. apply andb_true_iff in Hfl. destruct Hfl as [Hfr Hle]. rewrite Hfr in Hv.
+  unfold expand_one. rewrite Hfr. simpl. xq.
+  apply x_leb_ltb in Hle. rewrite Hle, orb_false_r in Hv.
+  apply x_leb_max. exact Hv.
+Qed.
